@@ -36,6 +36,15 @@ KSnapNecessary(classes, ref, tsk, rep) ==
 \* a remote chain's round 0 must start with its node-accept transaction
 InitialOK(classes, local, round0) == (~local /\ round0) => classes[1] = "accept"
 
+(* -------- validateSnapshotTransaction: the members as the node resolves them ---- *)
+\* states[i]: "finalized" (stored, finalized by an earlier snapshot), "persisted" (stored, not
+\* finalized), "cached" (in the cache, validated now), "missing" (unknown, requested later)
+VSTNecessary(classes, states) ==
+    Len(classes) > 1 => \A i \in DOMAIN classes : states[i] # "missing" => classes[i] \in Batchable
+VSTAccept(classes, states, finalized) ==
+    /\ VSTNecessary(classes, states)
+    /\ finalized \/ \A i \in DOMAIN classes : states[i] # "finalized"      \* a proposal cannot reuse a finalized transaction
+
 (* -------- durable history: WriteConsensusSnapshot ------------------------ *)
 Last(chain) == chain[Len(chain)]
 GenesisChain == << [tx |-> 0, ts |-> 0] >>
